@@ -78,15 +78,25 @@ func main() {
 	nScripted := run.N(40, 400)
 
 	var wg sync.WaitGroup
-	phase := func(f func()) {
+	var wallMu sync.Mutex
+	walls := map[string]float64{}
+	phase := func(name string, f func()) {
 		wg.Add(1)
-		go func() { defer wg.Done(); f() }()
+		go func() {
+			defer wg.Done()
+			t0 := time.Now()
+			f()
+			wallMu.Lock()
+			walls[name] = time.Since(t0).Seconds()
+			wallMu.Unlock()
+		}()
 	}
-	phase(func() { run.ParallelRange(baseHealth, nHealth, run.N(220, 600), healthCase) })
-	phase(func() { run.ParallelRange(baseReload, nReload, run.N(10, 12), reloadCase) })
-	phase(func() { run.ParallelRange(baseGating, nGating, run.N(16, 20), gatingCase) })
-	phase(func() { run.ParallelRange(baseScripted, nScripted, run.N(14, 16), scriptedCase) })
+	phase("health", func() { run.ParallelRange(baseHealth, nHealth, run.N(220, 600), healthCase) })
+	phase("reload", func() { run.ParallelRange(baseReload, nReload, run.N(14, 16), reloadCase) })
+	phase("gating", func() { run.ParallelRange(baseGating, nGating, run.N(16, 20), gatingCase) })
+	phase("scripted", func() { run.ParallelRange(baseScripted, nScripted, run.N(16, 16), scriptedCase) })
 	wg.Wait()
+	run.Set("phase_wall_s", walls)
 
 	finishPhaseMonitor()
 	stopSharedServer()
